@@ -50,6 +50,10 @@ def run(ctx):
                 b = rng.uniform(0.01, 3)
         if kind == 'Gaussian':       # keep the width within 1e-6..1e3 of the mean: a wider ratio only tests rounding
             b = abs(a) * 10 ** rng.uniform(-6, 3)
+        if kind in ('Gaussian', 'LogGaussian') and rng.random() < 0.15:
+            a = rng.choice([0, 0.0])       # a centre of exactly zero (an int or a float in the text)
+        if kind in ('Uniform', 'LogUniform') and rng.random() < 0.1:
+            a = rng.choice([0, 0.0])
         us = us_for(rng)
         rp = dict(kind=kind, a=a, b=b)
         via_text = rng.random() < 0.4
@@ -139,7 +143,9 @@ def run(ctx):
         for (u, s), row in zip(mt['keep'], r):
             mv = float(C.q_out(row[0]))
             tol = 1e-9 if mt['gauss'] else 1e-12
-            if not math.isclose(s, mv, rel_tol=tol, abs_tol=1e-300 if not mt['gauss'] else 1e-9 * abs(mv) + 1e-300):
+            # low + u * width loses digits relative to the bounds, not to the (possibly near-zero) result
+            span = 0.0 if mt['bounds'] is None else 1e-13 * max(abs(float(mt['bounds'][0])), abs(float(mt['bounds'][1])))
+            if not math.isclose(s, mv, rel_tol=tol, abs_tol=(span + 1e-300) if not mt['gauss'] else 1e-9 * abs(mv) + 1e-300):
                 bad = 'sample(%r): impl %r model %r' % (u, s, mv)
             if (row[1][0] == 1) != mt['log']:
                 bad = 'space: model %r impl log=%r' % (row[1], mt['log'])
